@@ -790,6 +790,12 @@ class LexerTokenStream(TokenStream):
                 new_tokbuf.append(tok)
             elif tok.type in ("COMMENT_SINGLELINE", "COMMENT_MULTILINE"):
                 comments.append(tok)
+                # a comment token includes the newline that ends its line; only
+                # documentation comments are continued by the following lines
+                if tok.value.endswith("\n") and not tok.value.startswith(
+                    ("///", "//!", "/**", "/*!")
+                ):
+                    break
             else:
                 new_tokbuf.append(tok)
                 if comments:
